@@ -13,6 +13,8 @@ one entry of `full_index` (slice / integer)                    `Idx`  (`slice(No
 the body of `for axis, idx in enumerate(full_index)`           `acceptAxis`   (`none` = `return None`)
 `block_ranges[axis]`, `output_adjustments[axis]`               `AxisPlan.br`, `AxisPlan.adj`
 one `(arg, ind)` pair of `self.args`                           `Opd` (`ind = none`: literal; `isArr = hasattr(arg,"_meta")`)
+`label_chunks` and its `setdefault(...) != ...` gate           `LabelChunks`, `opAxisSliceS` / `opAxesSlicesS` / `opSliceS` /
+                                                                 `opsSlicesS` (the operand loop with the running dict)
 the `for dim_idx, in_ind in enumerate(arg_ind)` body           `opAxisSlice`  (`none` = decline: broadcast axis or a zero-width
                                                                  operand chunk; `some none` = `slice(None)`)
 `new_adjust_chunks[ind] = val[first : last + 1]`               `sliceAdjust`
@@ -220,15 +222,79 @@ structure Result where
   /-- `new_adjust_chunks` -/
   adjust : List (Nat × AdjKind)
 
-/-- `Blockwise._accept_slice_coarse(slice_expr, full_index, adjust_chunks)` on a node whose `.chunks` are `oc`;
-`none` = `return None`. -/
-def acceptCoarse (n : Node) (oc : List (List Int)) (idx : List Idx) : Option Result :=
+/-- the operand loop WITHOUT the cross-operand gate (the rule as it was before commit c36af38): every `(arg, ind)` pair
+on its own.  Kept because the rule fires only where this one does, with the same result (`acceptCoarse_le`), and for the
+witness of what the gate excludes. -/
+def acceptCoarse0 (n : Node) (oc : List (List Int)) (idx : List Idx) : Option Result :=
   match axisPlans oc (fullIndex idx n.outInd.length) with
   | none => none
   | some plans =>
     match mapOpt (opSlice n.outInd plans (oc.map List.length)) n.ops with
     | none => none
     | some sl => some ⟨plans, sl, sliceAdjust n.outInd plans n.adjust⟩
+
+/-- `label_chunks`: index label ↦ chunks of the first sliced operand axis seen for it (most recent entry first) -/
+abbrev LabelChunks := List (Nat × List Int)
+
+/-- the body of `for dim_idx, in_ind in enumerate(arg_ind)` with the running `label_chunks`: the gates of `opAxisSlice`
+(`br is None` → `slice(None)`; block count; `0 in arg.chunks[dim_idx]`), THEN
+`label_chunks.setdefault(in_ind, arg.chunks[dim_idx]) != arg.chunks[dim_idx]` → `return None`.  An axis whose label has
+no block range (or is contracted) does not register. -/
+def opAxisSliceS (outInd : List Nat) (plans : List AxisPlan) (numblocks : List Nat) (lc : LabelChunks) (lab : Nat)
+    (ic : List Int) : Option (Option (Int × Int) × LabelChunks) :=
+  match opAxisSlice outInd plans numblocks lab ic with
+  | none => none
+  | some none => some (none, lc)
+  | some (some ab) =>
+    match lc.lookup lab with
+    | some ref => if ref ≠ ic then none else some (some ab, lc)
+    | none => some (some ab, (lab, ic) :: lc)
+
+/-- the loop over `arg_ind`, threading `label_chunks` -/
+def opAxesSlicesS (outInd : List Nat) (plans : List AxisPlan) (numblocks : List Nat) :
+    LabelChunks → List Nat → List (List Int) → Option (List (Option (Int × Int)) × LabelChunks)
+  | lc, l :: ls, ic :: ics =>
+    match opAxisSliceS outInd plans numblocks lc l ic with
+    | none => none
+    | some (s, lc1) =>
+      match opAxesSlicesS outInd plans numblocks lc1 ls ics with
+      | none => none
+      | some (ss, lc2) => some (s :: ss, lc2)
+  | lc, _, _ => some ([], lc)
+
+/-- one `(arg, arg_ind)` pair, threading `label_chunks` -/
+def opSliceS (outInd : List Nat) (plans : List AxisPlan) (numblocks : List Nat) (lc : LabelChunks) (o : Opd) :
+    Option (Option (List (Option (Int × Int))) × LabelChunks) :=
+  match o.ind with
+  | none => some (none, lc)
+  | some ind =>
+    if !o.isArr then none
+    else
+      match opAxesSlicesS outInd plans numblocks lc ind o.chunks with
+      | none => none
+      | some (sl, lc1) => some (some sl, lc1)
+
+/-- `for i in range(0, len(args), 2)` with `label_chunks = {}` before it -/
+def opsSlicesS (outInd : List Nat) (plans : List AxisPlan) (numblocks : List Nat) :
+    LabelChunks → List Opd → Option (List (Option (List (Option (Int × Int)))) × LabelChunks)
+  | lc, [] => some ([], lc)
+  | lc, o :: os =>
+    match opSliceS outInd plans numblocks lc o with
+    | none => none
+    | some (s, lc1) =>
+      match opsSlicesS outInd plans numblocks lc1 os with
+      | none => none
+      | some (ss, lc2) => some (s :: ss, lc2)
+
+/-- `Blockwise._accept_slice_coarse(slice_expr, full_index, adjust_chunks)` on a node whose `.chunks` are `oc`;
+`none` = `return None`. -/
+def acceptCoarse (n : Node) (oc : List (List Int)) (idx : List Idx) : Option Result :=
+  match axisPlans oc (fullIndex idx n.outInd.length) with
+  | none => none
+  | some plans =>
+    match opsSlicesS n.outInd plans (oc.map List.length) [] n.ops with
+    | none => none
+    | some (sl, _) => some ⟨plans, sl, sliceAdjust n.outInd plans n.adjust⟩
 
 /-- `needs_output_slice` -/
 def needsOutputSlice (r : Result) : Bool := r.plans.any (fun p => p.adj != .colon)
